@@ -120,6 +120,8 @@ class EpisodeSim:
         t = 0
         snap = None
         tail = []
+        over_left = int(run.plan.get("overrun", 0) or 0)
+        overrunning = False
         prev_done = E.done_vec(td).clone()
         while True:
             for p in self.perturbs:
@@ -167,7 +169,12 @@ class EpisodeSim:
                 if bool(done[pos]) and done_at[pos] is None:
                     done_at[pos] = t
             if bool(done.all()):
-                break
+                if over_left <= 0:
+                    break
+                over_left -= 1
+                overrunning = True
+                run.probe("overrun_tick")
+                run.fault("overrun")
             if len(set(x is None for x in done_at)) > 1:
                 run.probe("mixed_finished_unfinished")
             if t >= cap:
@@ -181,6 +188,9 @@ class EpisodeSim:
                 opts = D.admitted(mask[pos])
                 fin = bool(done[pos])
                 ref = refs[pos]
+                if not opts and overrunning:
+                    acts = None  # nothing is running any more: an all-False mask ends the overrun, no claim broken
+                    break
                 if not opts:
                     if "c02" in self.mon:
                         run.violate(name, "no_feasible_action",
@@ -219,6 +229,8 @@ class EpisodeSim:
                         run.state(name, tuple(sorted(getattr(ref, "visited", []))) if hasattr(ref, "visited") else t,
                                   getattr(ref, "cur", 0))
                 acts.append(a)
+            if acts is None:
+                break
             for pos, a in enumerate(acts):
                 hist[pos].append(a)
             tail.append(acts)
@@ -391,8 +403,14 @@ def _plan(run_seed, tier, env_names, perturb_kinds, p_perturb=0.5):
             perturbs.append({"kind": rc.choice(perturb_kinds), "at": rc.randint(0, 6),
                              "seed": rc.randrange(1 << 30)})
     env_cfg = E.cross_size_cfg(cfg, rc) if rc.random() < 0.15 else None
+    # "overrun": the whole batch is stepped on for a few ticks after its last row finished (a decoding loop with a
+    # fixed number of steps, a batch-mate in a larger stacked batch): finished rows stay finished and steppable, and
+    # the objective of the executed solution does not change.  The only way fixed-length environments get padded.
+    # (not SVRP: every depot visit of a finished row uses up a technician; a lock-step batch never pads a row
+    # beyond the number of technicians, an overrun does and the environment indexes past the last one)
+    overrun = rc.choice([0, 0, 0, 1, 2, 3]) if (name in E.ROUTING and name != "svrp") else 0
     return {"cfg": cfg, "env_cfg": env_cfg, "instances": [E.enc_row(r) for r in rows], "strategies": strategies,
-            "perturbs": perturbs, "source": source}
+            "perturbs": perturbs, "source": source, "overrun": overrun}
 
 
 def _shrink(plan):
